@@ -72,11 +72,14 @@ func main() {
 	if want("raw") {
 		rawCampaign(o, r, m)
 	}
+	if want("pool") {
+		poolCampaign(o, r, m)
+	}
 	if want("socket") {
 		socketCampaign(o, r, m)
 	}
 	if want("wiring") {
-		wiringCampaign(o, r)
+		wiringCampaign(o, r, m)
 	}
 
 	r.ModelOps = r.Evaluations
